@@ -558,6 +558,8 @@ class MailboxSet(MailboxSetInterface[MailboxData]):
                 raise ValueError(after)
             try:
                 self._layout.rename_folder(before, after, self.delimiter)
+            except FileExistsError as exc:
+                raise ValueError(after) from exc
             except OSError as exc:
                 if exc.errno == errno.ENAMETOOLONG:
                     raise NotSupportedError() from exc
